@@ -1139,6 +1139,19 @@ expand_manifests(string &expr, bool expand_undefined,
       }
       p++;
     }
+    else if (isdigit(expr[p])) {
+      // A number.  Skip all of it, so that the letters it may contain (0x10,
+      // 100L, 1e5) are not taken for identifiers.
+      p++;
+      while (p < expr.size() &&
+             (isalnum(expr[p]) || expr[p] == '_' || expr[p] == '.' ||
+              (expr[p] == '\'' && p + 1 < expr.size() && isalnum(expr[p + 1])) ||
+              ((expr[p] == '+' || expr[p] == '-') &&
+               (expr[p - 1] == 'e' || expr[p - 1] == 'E' ||
+                expr[p - 1] == 'p' || expr[p - 1] == 'P')))) {
+        p++;
+      }
+    }
     else {
       p++;
     }
